@@ -6,7 +6,7 @@ FILE = "xh_C01.py"
 FUNCTIONS = ["BaseSimfile.serialize", "BaseCharts.serialize", "SMChart.serialize", "SMSimfile._parse", "SMChart._from_msd / from_msd / blank",
              "SMSimfile.__eq__ / SMChart.__eq__", "item_property", "simfile.loads / _detect_ssc (autodetect obligation, real tokenizer, concrete values)"]
 ASSUMPTIONS = [
-    "msdparser is the environment: MSDParameter is replaced by the recording StubParam (contract: str(p) parses back to p for string components outside "
+    "msdparser is the environment: MSDParameter is replaced by the recording StubParam; the contract it stands for is itself discharged for values of <= 1 (thorough: 2) characters by the lexer_lemma obligation (contract: str(p) parses back to p for string components outside "
     "the escaping gaps the property excludes; rendering a non-string component raises AttributeError like the real serializer)",
     "values that are only moved/compared: arbitrary Unicode strings of length <= 3 (or None); scanned strings (multi-value split, chart-field strip): one symbolic string per obligation",
     "keys: chosen by symbolic index from every upper-case literal in the repository's source plus two fresh keys",
@@ -25,6 +25,9 @@ def obligations(tier):
         *[dict(name=f"edit_step[op{i},k%2=={r}]", func="edit_step", pre=f"op == {i} and k % 2 == {r}", timeout=T, bounds=f"edit operation {i} from a small pre-state, symbolic key index (8 keys) and value <=3") for i in range(9) for r in range(2)],
         *[dict(name=f"autodetect[v{v},k%4=={r}]", func="autodetect", pre=f"v == {v} and k % 4 == {r}", timeout=T, bounds="first key symbolic index (not VERSION), concrete value incl. escapes, real tokenizer") for v in range(3) for r in range(4)],
         dict(name="blank_and_corpus", func="blank_and_corpus", timeout=T, bounds="SMSimfile.blank() and the SM corpus file"),
+        *([dict(name="lexer_lemma[|v|<=1]", func="lexer_lemma", pre="len(v) <= 1", timeout=2 * T, bounds="dependency contract: str(MSDParameter(('K', v))) parses back to ('K', v) with the real serializer and lexer, any character outside the excluded gaps, |v| <= 1")]
+          if tier == "quick" else
+          [dict(name=f"lexer_lemma[|v|<=2,follow={f}]", func="lexer_lemma", pre=f"follow == {f}", timeout=T, bounds="dependency contract with the real serializer and lexer, |v| <= 2, outside the excluded gaps") for f in (False, True)]),
     ]
 
 
